@@ -48,6 +48,12 @@ static void cap_record(mp_srcptr x, mp_size_t xn, mp_srcptr y, mp_size_t yn)
 #define CAP_R_TOOM4SQR
 #define CAP_R_TOOM8SQR
 #define CAP_R_FFTMAIN
+/* mpn_mul_n and mpn_mul: entry points other files use for their recursive products (Toom-4); no regime bit, only depth and capture */
+void __real___gmpn_mul_n(mp_ptr, mp_srcptr, mp_srcptr, mp_size_t);
+void __wrap___gmpn_mul_n(mp_ptr r, mp_srcptr x, mp_srcptr y, mp_size_t n) { cap_record(x, n, y, n); cap_depth++; __real___gmpn_mul_n(r, x, y, n); cap_depth--; }
+mp_limb_t __real___gmpn_mul(mp_ptr, mp_srcptr, mp_size_t, mp_srcptr, mp_size_t);
+mp_limb_t __wrap___gmpn_mul(mp_ptr r, mp_srcptr x, mp_size_t xn, mp_srcptr y, mp_size_t yn)
+{ cap_record(x, xn, y, yn); cap_depth++; mp_limb_t c = __real___gmpn_mul(r, x, xn, y, yn); cap_depth--; return c; }
 WRAPV(__gmpn_mul_basecase, R_BASECASE, (mp_ptr r, mp_srcptr u, mp_size_t un, mp_srcptr v, mp_size_t vn), (r, u, un, v, vn))
 WRAPV(__gmpn_kara_mul_n, R_KARA, (mp_ptr r, mp_srcptr x, mp_srcptr y, mp_size_t n, mp_ptr t), (r, x, y, n, t))
 WRAPV(__gmpn_toom3_mul_n, R_TOOM3N, (mp_ptr r, mp_srcptr x, mp_srcptr y, mp_size_t n, mp_ptr t), (r, x, y, n, t))
@@ -96,6 +102,34 @@ static void op_toom3_points(int argc, char **argv)
   out_limbs(cp, 2 * n);
   if (!gbuf_ok(ap, n) || !gbuf_ok(bp, n) || !gbuf_ok(cp, 2 * n) || !gbuf_ok(tp, 4 * n + 300)) outs("REDZONE");
   gbuf_free(ap); gbuf_free(bp); gbuf_free(cp); gbuf_free(tp);
+}
+/* mpn_mul_sliced un U vn V : mpn_mul on an operand longer than MUL_BASECASE_MAX_UN with a short one: product and a 0 (the model's
+   second output is its "carry left the written limbs" flag, proved always false) */
+static void op_mul_sliced(int argc, char **argv)
+{
+  (void)argc; mp_size_t un = arg_l(argv[1]), vn = arg_l(argv[3]);
+  mp_ptr up = gbuf_alloc(un), vp = gbuf_alloc(vn), rp = gbuf_alloc(un + vn);
+  parse_limbs(argv[2], up, un); parse_limbs(argv[4], vp, vn);
+  mpn_mul(rp, up, un, vp, vn);
+  out_limbs(rp, un + vn); outl(0);
+  if (!gbuf_ok(up, un) || !gbuf_ok(vp, vn) || !gbuf_ok(rp, un + vn)) outs("REDZONE");
+  gbuf_free(up); gbuf_free(vp); gbuf_free(rp);
+}
+/* mpn_toom4_points n A B : mpn_toom4_mul_n called directly; the operands of its seven recursive products in call order
+   (points 1, -1, 1/2, -1/2 (scaled by 8), 2, infinity, 0; magnitudes) and the product */
+static void op_toom4_points(int argc, char **argv)
+{
+  (void)argc; mp_size_t n = arg_l(argv[1]);
+  mp_ptr ap = gbuf_alloc(n), bp = gbuf_alloc(n), cp = gbuf_alloc(2 * n);
+  parse_limbs(argv[2], ap, n); parse_limbs(argv[3], bp, n);
+  cap_on = 1; cap_depth = 0; cap_n = 0;
+  mpn_toom4_mul_n(cp, ap, bp, n);
+  cap_on = 0;
+  outl(cap_n);
+  for (int i = 0; i < cap_n; i++) { out_zv(cap_x[i]); out_zv(cap_y[i]); mpz_clear(cap_x[i]); mpz_clear(cap_y[i]); }
+  out_limbs(cp, 2 * n);
+  if (!gbuf_ok(ap, n) || !gbuf_ok(bp, n) || !gbuf_ok(cp, 2 * n)) outs("REDZONE");
+  gbuf_free(ap); gbuf_free(bp); gbuf_free(cp);
 }
 /* mpn_mul_1 n U v ovl(0 sep,1 in place) */
 static void op_mul_1(int argc, char **argv)
@@ -231,7 +265,7 @@ static void do_zaorsmul_ui(char **argv, int sub)
 static void op_zaddmul_ui(int c, char **v) { (void)c; do_zaorsmul_ui(v, 0); }
 static void op_zsubmul_ui(int c, char **v) { (void)c; do_zaorsmul_ui(v, 1); }
 
-const op_t ops_mul[] = { {"mpn_toom3_points", op_toom3_points},
+const op_t ops_mul[] = { {"mpn_toom3_points", op_toom3_points}, {"mpn_toom4_points", op_toom4_points}, {"mpn_mul_sliced", op_mul_sliced},
   {"mpn_mul_1", op_mul_1}, {"mpn_addmul_1", op_addmul_1}, {"mpn_submul_1", op_submul_1},
   {"mpn_mul", op_mul}, {"mpn_mul_big", op_mul_big}, {"mpn_mul_n", op_mul_n}, {"mpn_mul_n_big", op_mul_n_big},
   {"mpn_sqr", op_sqr}, {"mpn_sqr_big", op_sqr_big}, {"mpn_mul_basecase", op_basecase}, {"mpn_kara_mul_n", op_kara},
